@@ -17,7 +17,7 @@ static Boolean ChkTmp3(char* Name, as_symbol_source_t symbol_source) { (void)Nam
 static Boolean ChkTmp(char* Name, as_symbol_source_t symbol_source) { (void)Name; (void)symbol_source; return False; }
 Boolean ChkSymbName(char const* pSym) { (void)pSym; return True; }
 char* ChkSymbNameUpTo(char const* pSym, char const* pUpTo) { (void)pSym; return (char*)pUpTo; }
-void NLS_UpString(char* pStr) { (void)pStr; }
+void NLS_UpString(char* pStr) { if (pStr[0] >= 'a' && pStr[0] <= 'z') pStr[0] -= 'a' - 'A'; }   /* one-letter names */
 char* as_strdup(char const* s) { char* d = (char*)malloc(4); d[0] = s[0]; d[1] = 0; return d; }   /* one-letter names */
 LargeWord EProgCounter(void) { return 0x1234; }
 void FreeRelocs(PRelocEntry* l) { (void)l; }
@@ -230,6 +230,38 @@ void harness(void)
     }
     else
       CHECK(diag_errs > 0, "no visible definition: undefined symbol (pass 2)");
+  }
+#elif defined(K_FORWARD)
+  {
+    /* C01/C13: FORWARD.  First pass, inside a section: a symbol announced with FORWARD is looked up in the section only --
+       a reference before its local definition must come out as 'unknown in the first pass' (repass), never as the
+       value of a global symbol of the same name.  Case-insensitive mode stores and compares names upper-cased. */
+    static TSaveSection st_glob; static TForwardSymbol fwd; static char fname[2] = "L", ref[2]; static tStrComp cR;
+    TempResult v; as_tempres_ini(&v);
+    int casesens = in_prev_def[0] & 1, lower = in_prev_def[1] & 1, announced = in_ev_kind[0] & 1;
+    int same_name = casesens ? !lower : 1;
+    CaseSensitive = casesens; PassNo = 1; MaxSymPass = 1;
+    MomSectionHandle = -1; SectionStack = NULL;
+    EnterIntSymbolWithFlags(&cL, in_ev_val[0], SegNone, False, eSymbolFlag_None);       /* global L, already defined */
+    CHECK(diag_cnt == 0 && !Repass, "defining the global raises nothing");
+    MomSectionHandle = 2; st_glob.Handle = -1; st_glob.Next = NULL; st_glob.GlobSyms = st_glob.ExportSyms = NULL;
+    fwd.Next = NULL; fwd.Name = fname; fwd.DestSection = 2;
+    st_glob.LocSyms = announced ? &fwd : NULL; SectionStack = &st_glob;
+    ref[0] = lower ? 'l' : 'L'; ref[1] = 0; cR.str.p_str = ref;
+    LookupSymbol(&cR, &v, False, TempInt);
+    if (announced && same_name)
+    {
+      CHECK(Repass && (v.Flags & eSymbolFlag_FirstPassUnknown), "reference to a FORWARD-announced symbol before its definition: unknown in the first pass, another pass requested");
+      WITNESS("forward reference");
+      if (!casesens && lower) WITNESS("lower-case spelling in case-insensitive mode");
+    }
+    else if (same_name)
+    {
+      CHECK(!Repass && v.Typ == TempInt && v.Contents.Int == in_ev_val[0], "not announced: the enclosing (global) definition is visible");
+      WITNESS("global visible");
+    }
+    else
+      CHECK(Repass, "different spelling in case-sensitive mode: unknown symbol in the first pass");
   }
 #endif
   WITNESS("end");
